@@ -9,9 +9,9 @@ PROPS = {
     'C02': {
         'e3_always': ['opt_levels'],
         'e3': ['compose_paths', 'path_optimizer', 'opt_levels'],
-        'units': ['paths', 'nullopt'],
-        'decided': 'path composition used by the cl23 optimiser and NodePath (compose_paths) equals "follow p then q" for all paths >= 1; the cl23+ post-codegen passes: null_optimization keeps the value of well-formed generated code in every environment (as an expression / as an operand list, by induction over the code against a compositional evaluation spec with uninterpreted operators), null_optimization_of_code and Strategy23::post_codegen_function_optimize / post_codegen_output_optimize return code with the same value (given assumed contracts for remove_double_apply and brief_path_selection); SExp::atomize',
-        'not_covered': ['remove_double_apply and brief_path_selection (contracts ASSUMED in unit nullopt)', 'that codegen only emits well-formed code (atom operators; precondition at the unverified call site)', 'CSE, de-inlining, constant folding, fe_opt, strategy optimiser: bounded stand-in only (E3: 15 programs x argument sets x cl21/cl22/cl23 x -O off/on must agree on the returned value)', 'brief_path_selection_single call-site precondition', 'whole-pipeline equality of builds for all programs'],
+        'units': ['paths', 'nullopt', 'brief'],
+        'decided': 'path composition used by the cl23 optimiser and NodePath (compose_paths) equals "follow p then q" for all paths >= 1; the cl23+ post-codegen passes: null_optimization keeps the value of well-formed generated code in every environment (as an expression / as an operand list, by induction over the code against a compositional evaluation spec with uninterpreted operators), null_optimization_of_code and Strategy23::post_codegen_function_optimize / post_codegen_output_optimize return code with the same value (given assumed contracts for remove_double_apply and brief_path_selection); SExp::atomize; brief_path_selection itself (unit brief): a chain (f (r (f ... N))) over a path N >= 1 is replaced by the one path the chain selects and the rewrite is applied at every evaluated position, giving code with the same value in every environment (lemmas compose_path, outer_step; consensus facts used as stated axioms: path lookup = traverse_path, f / r, a proper operand list ends in nil), under the preconditions that evaluated positions hold no Integer below 1 and no pair-headed form, and that the code has fewer than 2^31 nodes; is_quote_atom / is_first_atom / is_rest_atom',
+        'not_covered': ['remove_double_apply (contract ASSUMED in unit nullopt)', 'that the code handed from null_optimization / remove_double_apply to brief_path_selection meets brief_path_selection\'s preconditions (null_optimization can turn (q . 0) into a bare Integer 0): in unit nullopt the contract of brief_path_selection is therefore still an assumption at that call site', 'SExp::proper_list (contract ASSUMED in unit brief)', 'that codegen only emits well-formed code (atom operators; precondition at the unverified call site)', 'CSE, de-inlining, constant folding, fe_opt, strategy optimiser: bounded stand-in only (E3: 15 programs x argument sets x cl21/cl22/cl23 x -O off/on must agree on the returned value)', 'brief_path_selection_single call-site precondition', 'whole-pipeline equality of builds for all programs'],
     },
     'C03': {
         'e3_always': ['classic_meaning'],
@@ -57,8 +57,10 @@ PROPS = {
     },
     'C20': {
         'units': ['tables'],
+        'e3_always': ['tables'],
+        'e3': ['tables'],
         'decided': 'the operator tables, extracted as data each run: opcodes pairwise distinct and names pairwise distinct (so opcode->name and name->opcode of each version are mutually inverse), FROM/TO builders of each version select the same rows, versions only add rows, keyword_from_atom/keyword_to_atom pick the same table, every prims() operator has the same canonically encoded opcode in KW_PAIRS and vice versa, the stepping evaluator\'s special-cased opcodes (q a i c f r) are the classic ones',
-        'not_covered': ['that clvmr implements each opcode (dispatch is outside the tables)', 'OriginalDialect / ChiaDialect flag selection in stage_0'],
+        'not_covered': ['that the evaluator selected per operator version (stage_0.rs dispatch and dialect flags) implements every operator of that version: stand-in only, but exhaustive over the finite tables (E3: one-operator program per name and version)', 'that clvmr implements each opcode (dispatch is outside the tables)', 'OriginalDialect / ChiaDialect flag selection in stage_0'],
     },
     'C05': {
         'e3_always': ['determinism'],
